@@ -247,3 +247,47 @@ Definition ok (c : case) : bool :=
      | o1 :: rest => forallb (result_close (Nat.leb (List.length (c_answers c)) 2 && all_finite (c_answers c)
                                               && weights_positive (c_answers c) && values_nonneg (c_answers c)) o1) rest
      end.
+
+(* ---------- the fan-out helper (resource/cobalt/call.go) ---------- *)
+(* call: one goroutine per plugin, wg.Wait() for ALL of them, then the results
+   are collected: an error of any plugin makes the combined error non-nil (and
+   GetNodesDeployCapacity returns it without merging); there is no way out of
+   the wait other than every plugin having answered.  [None] = the plugin
+   answered with an error. *)
+Fixpoint call_all {A} (rs : list (option A)) : option (list A) :=
+  match rs with
+  | [] => Some []
+  | None :: _ => None
+  | Some a :: t => match call_all t with Some l => Some (a :: l) | None => None end
+  end.
+
+Definition gndc_call (answers : list (option famap)) : option (famap * Z) :=
+  match call_all answers with
+  | None => None
+  | Some l => Some (gndc_f l)
+  end.
+
+(* cases with a slow plugin: the harness blocks one plugin, cancels the context
+   of the manager call while it is blocked, watches whether the call returns
+   before the plugin is released (cc_early), releases it, and records the result
+   (None = the manager returned an error) *)
+Record ccase := mkCCase { cc_answers : list (option famap); cc_early : bool; cc_obs : option (famap * Z) }.
+
+Definition agree_call (c : ccase) : bool :=
+  negb (cc_early c)
+  && match call_all (cc_answers c), cc_obs c with
+     | None, None => true
+     | Some l, Some o => existsb (fun m => result_eqb m o) (map gndc_f (perms l))
+     | _, _ => false
+     end.
+
+(* the property: a result is either an error or the aggregate over ALL plugins,
+   never a silent merge of the plugins that happened to have answered *)
+Definition ok_call (c : ccase) : bool :=
+  match cc_obs c with
+  | None => true
+  | Some o => match call_all (cc_answers c) with
+              | Some l => one_ok l o
+              | None => false
+              end
+  end.
